@@ -712,6 +712,22 @@ Theorem labels_irrelevant_G scale m eps f : gp_og_test_by_key = true -> injectiv
   = relabel_tab f (w_table gp_og_test_by_key gp_derivative scale m eps).
 Proof. intros -> Hinj. apply w_table_relabel_by_key. exact Hinj. Qed.
 
+(* the source read on this run compares labels (repaired by /repo 51eacb0); reverting that repair makes
+   this lemma -- hence T18h_labels_irrelevant -- fail *)
+Lemma gp_og_test_is_by_key : gp_og_test_by_key = true.
+Proof. reflexivity. Qed.
+
+Theorem labels_irrelevant v scale m eps f : injective_on f (keys m) ->
+  w_table gp_og_test_by_key (code_d v) scale (relabel f m) eps
+  = relabel_tab f (w_table gp_og_test_by_key (code_d v) scale m eps).
+Proof.
+  intros Hinj. destruct v.
+  - apply labels_irrelevant_G; [exact gp_og_test_is_by_key | exact Hinj].
+  - apply labels_irrelevant_TZN; [discriminate | exact Hinj].
+  - apply labels_irrelevant_TZN; [discriminate | exact Hinj].
+  - apply labels_irrelevant_TZN; [discriminate | exact Hinj].
+Qed.
+
 (* the position/label confusion: labels 1,2,3 with the outside good labelled 2 (position 1) versus the
    same model relabelled 11,12,13 *)
 Definition confusion_model : lmodel :=
